@@ -168,6 +168,14 @@ pub trait Scenario: Sync {
     fn components(&self) -> Value {
         json!({})
     }
+    /// May this run take part in the determinism re-sample (executed twice, fingerprints compared)?
+    /// False only where the SUBSTRATE is known not to be repeatable: gradients computed by the f32
+    /// NdArray backend go through an approximate, alignment-dependent reciprocal (observed: the
+    /// gradient of log() differs by 3e-5 relative between two evaluations of the same input in one
+    /// process), so counters that depend on rounding-edge decisions may differ between executions.
+    fn recheckable(&self, _params: &Value) -> bool {
+        true
+    }
 }
 
 pub struct PropertyDef {
@@ -422,7 +430,7 @@ pub fn child_main(prop: &PropertyDef, tier: Tier, seed: u64, k: u64, n: u64) -> 
             let want_sample = idx < 2;
             let o = guarded_execute(s.as_ref(), &params, want_sample);
             // determinism re-sample: 1 in 64 runs is executed twice and must agree
-            if idx % 64 == 1 || (tier == Tier::Quick && idx % 16 == 1) {
+            if (idx % 64 == 1 || (tier == Tier::Quick && idx % 16 == 1)) && s.recheckable(&params) {
                 let o2 = guarded_execute(s.as_ref(), &params, false);
                 agg.determinism_rechecks += 1;
                 if outcome_fingerprint(&o) != outcome_fingerprint(&o2) {
